@@ -26,6 +26,18 @@ def floatTrig : Trig Float :=
 def nodeArr (l : List Float) : NodeArr Float := fun i => l.getD i.n nan
 def faceArr (l : List Float) : FaceArr Float := fun i => l.getD i.n nan
 
+def nodeV3 (x y z : List Float) : NodeIx → V3 Float :=
+  fun i => ⟨x.getD i.n nan, y.getD i.n nan, z.getD i.n nan⟩
+def faceV3 (x y z : List Float) : FaceIx → V3 Float :=
+  fun i => ⟨x.getD i.n nan, y.getD i.n nan, z.getD i.n nan⟩
+
+/-- oracle on raw Cartesian positions of any radius (scale invariant:
+    `UxVerif.C16.oracleAngle_scale_invariant`) -/
+def oracleFaceXYZ (c : FaceIx → V3 Float) (ef : EdgeFaces) : List Float :=
+  ef.map (fun p => match p.2 with
+    | some g => oracleAngle Float.sqrt Float.atan2 (c p.1) (c g)
+    | none => 0.0)
+
 def enP : P EdgeNodes := do
   let l ← list (do let a ← nat; let b ← nat; pure ((⟨a⟩ : NodeIx), (⟨b⟩ : NodeIx)))
   pure l
@@ -124,6 +136,26 @@ def handle (cmd : String) (args : List Int) : Option String :=
         | none => 0.0)
       let model := edgeFaceDist floatTrig (faceArr lon) (faceArr lat) ef
       pure (encVerdict (judgeDist eps oracle model impl (ef.map (fun p => p.2.isNone))))
+  -- the same judgements against DIRECTIONS given as Cartesian positions of any radius
+  | "C16.dist.node.xyz" => do
+      let (eps, x, y, z, en, impl) ← run (do
+        let eps ← float; let x ← floats; let y ← floats; let z ← floats; let en ← enP; let impl ← floats
+        pure (eps, x, y, z, en, impl)) args
+      let c := nodeV3 x y z
+      let oracle := en.map (fun p => oracleAngle Float.sqrt Float.atan2 (c p.1) (c p.2))
+      let model := edgeNodeDistXYZ Float.acos Float.sqrt c en
+      pure (encVerdict (judgeDist eps oracle model impl (en.map (fun _ => false))))
+  | "C16.dist.face.xyz" => do
+      let (eps, x, y, z, ef, impl) ← run (do
+        let eps ← float; let x ← floats; let y ← floats; let z ← floats; let ef ← efP; let impl ← floats
+        pure (eps, x, y, z, ef, impl)) args
+      let c := faceV3 x y z
+      let model := edgeFaceDistXYZ Float.acos Float.sqrt c ef
+      pure (encVerdict (judgeDist eps (oracleFaceXYZ c ef) model impl (ef.map (fun p => p.2.isNone))))
+  | "C16.oracle.face.xyz" => do
+      let (x, y, z, ef) ← run (do
+        let x ← floats; let y ← floats; let z ← floats; let ef ← efP; pure (x, y, z, ef)) args
+      pure (encFloats (oracleFaceXYZ (faceV3 x y z) ef))
   | "C16.oracle.face" => do
       let (lon, lat, ef) ← run (do let lon ← floats; let lat ← floats; let ef ← efP; pure (lon, lat, ef)) args
       pure (encFloats (ef.map (fun p => match p.2 with
